@@ -101,7 +101,14 @@ def compile_probe(p, rlib, deps, workdir, toolchain=None):
     open(src, "w").write(p["src"])
     rustc = ["rustc"] + (["+" + toolchain] if toolchain else [])
     cmd = rustc + ["--edition", "2021", "--crate-type", "bin", "--crate-name", "probe", "--emit=metadata", "--error-format=json",
-                   "--cap-lints", "allow", "--extern", "triomphe=" + rlib, "-L", "dependency=" + deps, src, "-o", out]
+                   "--cap-lints", "allow", "--extern", "triomphe=" + rlib, "-L", "dependency=" + deps]
+    if "extern crate unsize" in p["src"]:
+        # the safe front end of feature `unsize` (`CoerceUnsize::unsize`) lives in the `unsize` crate the library was built with
+        import glob
+        us = sorted(glob.glob(os.path.join(deps, "libunsize-*.rlib")))
+        if us:
+            cmd += ["--extern", "unsize=" + us[-1]]
+    cmd += [src, "-o", out]
     rc, so, se = common.sh2(cmd, timeout=120)
     v, codes, msgs = classify(rc, se)
     return {"id": p["id"], "rustc": v, "codes": codes, "msgs": msgs[:4], "cmd": " ".join(cmd)}
@@ -174,7 +181,7 @@ def facts_summary(facts):
                       for i in facts["autoImpls"]],
         "structs": {s["name"]: [f["name"] + ": " + f["ty"] for f in s["fields"]] for s in facts["structs"]},
         "signatures": len(facts["sigs"]),
-        "obligated_signatures": [s["key"] for s in facts["sigs"] if s["pub"] and not s["unsafe"]],
+        "obligated_signatures": [s["key"] for s in facts["sigs"] if s["pub"] and (not s["unsafe"] or s.get("trait") == "CoerciblePtr" or s.get("trait_") == "CoerciblePtr")],
         "callbacks": [s["key"] for s in facts["sigs"] if s["callbacks"]],
         "translator_notes": facts.get("notes", []),
     }
